@@ -174,6 +174,40 @@ def rule_fit(prog, rep):
               "C15.leak", site, "fit_to_data:val-list-rebuilt-from-itself",
               "val_data' is a permutation of val_data",
               f"the validation list of the next epoch is {show(got['val_data'], 200)}")
+    # ---- keys: every step / loss call made once per batch must get a key that changes with the iteration
+    rep.rule("C15.keys", "every step / loss_fn call made per batch receives a key derived, in that iteration, from the "
+                         "loop-carried key (a loop-invariant key means all batches of the epoch share their randomness)",
+             minimum=2)
+    from ..terms import free_bvs
+    seen_calls = 0
+    for n in ("losses", "params"):
+        for node in walk(got[n]):
+            lam = None
+            if node[0] == "fold":
+                lam = node[2]
+            elif node[0] == "map":
+                lam = node[1]
+            if lam is None or lam[0] != "lam" or len(lam) < 4:
+                continue
+            lvl = lam[3]
+            for cl in walk(lam[2]):
+                if cl[0] == "call" and (cl[1] == ("ext", TU + "step") or cl[1] == ("sym", "LOSS_FN")):
+                    kt = dict(cl[3]).get("key")
+                    if kt is None:
+                        continue
+                    seen_calls += 1
+                    which = "step" if cl[1][0] == "ext" else "loss_fn"
+                    varies = bool(free_bvs(kt, lvl))
+                    carried_only = varies and not any(i2 == 0 for i2 in free_bvs(kt, lvl)) if node[0] == "fold" else varies
+                    kk = f"fit_to_data:{which}-key-fresh-per-batch@{n}"
+                    if not varies:
+                        rep.violated("C15.keys", site, kk,
+                                     f"the key passed to {which} inside the per-batch loop is {show(kt, 120)}, which does "
+                                     f"not change between batches: every batch of the epoch is given the same key")
+                    else:
+                        rep.holds("C15.keys", site, kk, show(kt, 80))
+    if not seen_calls:
+        rep.undecided("C15.keys", site, "fit_to_data:per-batch-calls", "no per-batch step / loss_fn call found")
     # loop runs over range(max_epochs)
     got_l, _ = summarise(prog, m, body[:li], PRO_IN, ["loop"], NOIN)
     it_term = Interp(prog).ev(loop.iter, _env_of({"loop": got_l["loop"]}), (m, None, None))
